@@ -714,7 +714,7 @@ func TestContextTable(t *testing.T) {
 // scope where it stands, not on what the same pattern text meant in a script (or block) checked earlier in the process.
 func TestAliasEnvironments(t *testing.T) {
 	n := 0
-	for round, order := range [][]int{{0, 1, 2, 3, 4, 5, 6, 7, 8, 9, 10, 11}, {1, 0, 3, 2, 5, 4, 6, 11, 10, 9, 8, 7}, {3, 4, 0, 6, 1, 2, 5, 8, 10, 7, 11, 9}, {11, 10, 9, 8, 7, 6, 5, 4, 3, 2, 1, 0}} {
+	for round, order := range [][]int{{0, 1, 2, 3, 4, 5, 6, 7, 8, 9, 10, 11, 12, 13, 14}, {1, 0, 3, 2, 5, 4, 6, 11, 10, 9, 8, 7, 14, 13, 12}, {3, 4, 0, 6, 12, 1, 2, 5, 8, 13, 10, 7, 11, 9, 14}, {14, 13, 12, 11, 10, 9, 8, 7, 6, 5, 4, 3, 2, 1, 0}} {
 		al := fmt.Sprintf("al%d", round)
 		g := "grok(_, \"%{" + al + ":n}\")"
 		scripts := []struct {
@@ -734,6 +734,10 @@ func TestAliasEnvironments(t *testing.T) {
 			{"add_pattern(\"outer" + al + "\", \"x\")\nif true { add_pattern(\"" + al + "\", \"y\") } else { " + g + " }", false},
 			{"add_pattern(\"outer" + al + "\", \"x\")\nfor i in [1] { add_pattern(\"" + al + "\", \"y\") }\nif true { " + g + " }", false},
 			{"add_pattern(\"" + al + "\", \"[a-z]+\")\nif true { add_pattern(\"" + al + "\", \"(\") }\n" + g, true},
+			// an alias defined inside a condition (of an if, an elif, a loop) belongs to that statement
+			{"if add_pattern(\"" + al + "\", \"\\\\d+\") { }\n" + g, false},
+			{"if false { } elif add_pattern(\"" + al + "\", \"x\") == nil { }\nif true { " + g + " }", false},
+			{"for ; add_pattern(\"" + al + "\", \"x\"); { break }\n" + g, false},
 			{"add_pattern(\"" + al + "\", \"[a-z]+\")\nfor i in [1] { if true { add_pattern(\"" + al + "\", \"\\\\d\") } }\nif true { " + g + " }", true},
 		}
 		for _, k := range order {
@@ -753,7 +757,7 @@ func TestAliasEnvironments(t *testing.T) {
 			n++
 		}
 	}
-	evid.Exhaustive("one pattern text x 12 alias environments x 4 check orders", n)
+	evid.Exhaustive("one pattern text x 15 alias environments x 4 check orders", n)
 }
 
 // TestFaultingCheckFunction: a registered function whose check function faults (it looks at its first argument before
